@@ -385,6 +385,7 @@ func c08R3(c *Ctx, p *Prog) {
 				}
 			}
 			c.Check(okArg, rule, name+"#softAbort-nodes", ci.Pos(), "the soft node limit is compared with Counters.Nodes")
+			c08SoftNeedsMove(c, p, fn, ci)
 		}
 	}
 	c.Floor(rule, n, 1, "softAbort call sites")
@@ -397,6 +398,9 @@ func isDepthTyped(v ssa.Value) bool {
 
 func init() {
 	addMutants(
+		Mutant{Name: "C08.R3-soft-stop-without-a-move", Prop: "C08", File: "search/search.go", Quick: true,
+			Old: "if move != 0 && opts.softAbort(", New: "if opts.softAbort(",
+			Expect: "C08.R3/search.(*Search).iterativeDeepen#softAbort-needs-move"},
 		Mutant{Name: "C08.R6-ponder-cleared-on-every-abort", Prop: "C08", File: "search/search.go", Quick: true,
 			Old: "\t\t\t\tif move == 0 {\n\t\t\t\t\ts.ms.Push()\n\t\t\t\t\tdefer s.ms.Pop()\n\n\t\t\t\t\t// give up on ponder\n\t\t\t\t\tponder = 0\n", New: "\t\t\t\t// give up on ponder\n\t\t\t\tponder = 0\n\t\t\t\tif move == 0 {\n\t\t\t\t\ts.ms.Push()\n\t\t\t\t\tdefer s.ms.Pop()\n\n",
 			Expect: "C08.R6.result/iterativeDeepen#result-of-last-iteration"},
@@ -551,5 +555,115 @@ func c08R5(c *Ctx, p *Prog) {
 		default:
 			c.Ok(rule, key, fn.Pos(), "%s can end the search only where %s > 0 holds", lim, lim)
 		}
+	}
+}
+
+// c08SoftNeedsMove: a search stopped by a soft limit hands over the move of the iteration just finished; the
+// hard-budget replay with the same node count aborts inside the next iteration and, with no move adopted so far,
+// takes the first-legal-move fallback. The two agree only when the soft stop is taken with a move in hand: every
+// path from the soft-limit test to a return on which the limit was hit knows `move != 0`.
+func c08SoftNeedsMove(c *Ctx, p *Prog, fn *ssa.Function, ci ssa.CallInstruction) {
+	const rule = "C08.R3"
+	key := fnName(fn) + "#softAbort-needs-move"
+	callV, _ := ci.(ssa.Value)
+	if callV == nil {
+		c.Undec(rule, key, ci.Pos(), "the soft-limit test is not an ordinary call")
+		return
+	}
+	_, mvPhis, mvAlloc := resultWeb(fn, 1)
+	if len(mvPhis) == 0 && mvAlloc == nil {
+		c.Undec(rule, key, ci.Pos(), "the move result of %s is not tracked through a local or phis", fnName(fn))
+		return
+	}
+	isMove := func(v ssa.Value) bool {
+		v = stripConv(v)
+		if ph, ok := v.(*ssa.Phi); ok && mvPhis[ph] {
+			return true
+		}
+		if ld, ok := v.(*ssa.UnOp); ok && ld.Op == token.MUL && mvAlloc != nil && ld.X == ssa.Value(mvAlloc) {
+			return true
+		}
+		return false
+	}
+	// fact: (is a test of the move against 0, move known non-zero)
+	fact := func(v ssa.Value, truth bool) (bool, bool) {
+		for {
+			if u, ok := v.(*ssa.UnOp); ok && u.Op == token.NOT {
+				v, truth = u.X, !truth
+				continue
+			}
+			break
+		}
+		bo, ok := v.(*ssa.BinOp)
+		if !ok || (bo.Op != token.EQL && bo.Op != token.NEQ) {
+			return false, false
+		}
+		for _, pr := range [][2]ssa.Value{{bo.X, bo.Y}, {bo.Y, bo.X}} {
+			if k, isc := constOf(pr[1]); isc && k == 0 && isMove(pr[0]) {
+				return true, (bo.Op == token.NEQ) == truth
+			}
+		}
+		return false, false
+	}
+	pre := false
+	for _, ce := range controllingConds(ci.Block()) {
+		if is, nz := fact(ce.Cond, ce.True); is && nz {
+			pre = true
+		}
+	}
+	isSearch := func(in ssa.Instruction) bool {
+		call, ok := in.(*ssa.Call)
+		if !ok {
+			return false
+		}
+		switch objName(calleeObj(call)) {
+		case "search.(*Search).alphaBeta", "search.(*Search).quiescence":
+			return true
+		}
+		return false
+	}
+	hasSearch := func(b *ssa.BasicBlock) bool {
+		for _, in := range b.Instrs {
+			if isSearch(in) {
+				return true
+			}
+		}
+		return false
+	}
+	hits, bad := 0, token.NoPos
+	complete := enumBlockPaths(ci.Block(), func(_, to *ssa.BasicBlock) bool { return hasSearch(to) }, 100000, func(bp *bpath) {
+		if bp.End != "return" {
+			return
+		}
+		hit, known := false, pre
+		for _, pc := range bp.Conds {
+			if pc.V == callV && pc.True {
+				hit = true
+			}
+			if is, nz := fact(pc.V, pc.True); is && nz {
+				known = true
+			}
+		}
+		if !hit {
+			return
+		}
+		hits++
+		if !known && !bad.IsValid() {
+			last := bp.Blocks[len(bp.Blocks)-1]
+			bad = last.Instrs[len(last.Instrs)-1].Pos()
+			if !bad.IsValid() {
+				bad = ci.Pos()
+			}
+		}
+	})
+	switch {
+	case !complete:
+		c.Undec(rule, key, ci.Pos(), "path enumeration from the soft-limit test exceeded its budget")
+	case hits == 0:
+		c.Undec(rule, key, ci.Pos(), "no path from the soft-limit test to a return on which the limit was hit was recognised")
+	case bad.IsValid():
+		c.Fail(rule, key, bad, "the search can stop at a soft limit without a move in hand (no `move != 0` on the path from softAbort to this return): after N nodes it returns the null move, while the hard-budget replay with N nodes aborts inside the next iteration and takes the first-legal-move fallback, so the two disagree")
+	default:
+		c.Ok(rule, key, ci.Pos(), "every soft stop (%d paths) is taken with move != 0, as the hard-budget replay's fallback presumes", hits)
 	}
 }
